@@ -9,12 +9,12 @@ LEVEL_TEXT = (
     "open/closed disjoint, predecessor structure with g decreasing by one, closed set edge-closed into the discovered set, scores defined where read; "
     "for optimality: g - g[start] >= dist on discovered cells, == dist on closed cells, every edge out of a closed cell relaxed, priority = g + Manhattan "
     "distance. The step 'the cell with the least priority carries its true distance' uses one code-independent graph lemma (astar_cut: a shortest path leaves "
-    "any set through a tight edge, and the Manhattan heuristic is consistent along it), which is trusted and validated concretely against BFS on every run. "
+    "any set through a tight edge, and the Manhattan heuristic is consistent along it), which is machine-checked in Lean (lemmas/AstarCut.lean, thorough tier) and validated concretely against BFS on every run. "
     "The bounded stand-in (all graphs up to 2x3/3x2, sampled or all 4096 graphs on 3x3, all ordered pairs, random larger graphs, against BFS) is kept as a cross-check."
 )
 LEVEL_NOTE = (
     "Trusted: pyvc encoding; min(set, key=) and list(set) library contracts; lemma reach_induction; the vocabulary dist (0 at the source, non-negative, "
-    "+1 at most across an edge; concrete reading = BFS) and the lemma astar_cut (textbook, validated on enumerated small graphs, not machine-checked); "
+    "+1 at most across an edge; concrete reading = BFS) and the lemma astar_cut (Lean-checked; the transcription between the Lean statement and the SMT axiom is trusted); "
     "floats of the score tables as reals. Termination not proved."
 )
 TECHNIQUE = "contract-based deductive verification (A* loop invariants incl. optimality over the real AST, z3/cvc5) + bounded comparison with BFS as cross-check"
